@@ -1,0 +1,38 @@
+//go:build verif
+
+package actor
+
+// Contracts for property C02 (accepted messages are processed exactly once; no
+// lost wake-up), kernel: what the enqueue path and the worker turn do with one
+// message, and the release/reclaim step that closes the lost-wake-up window.
+// The mailboxes themselves (that Dequeue returns each enqueued message exactly
+// once, in order) are C03/C04 and not claimed.
+
+//@ property C02
+//@ load sync/atomic
+
+// ---- enqueue side: an accepted message is always followed by a scheduling attempt ------
+//@ ghost local dr_enq_err error
+//@ ghost local dr_scheduled bool
+//@ ghost local dr_enqueued bool
+//@ ghost local dr_attempted bool
+//@ func (*PID).doReceive(pid, receiveCtx)
+//@   ghost entry dr_enq_err = nil
+//@   ghost entry dr_scheduled = false
+//@   ghost entry dr_enqueued = false
+//@   ghost entry dr_attempted = false
+//@   at call 1 of invoke Enqueue assert system-mailbox-for-control-messages: arg1 == receiveCtx
+//@   at call 1 of invoke Enqueue ghost dr_enqueued = true
+//@   at call 2 of invoke Enqueue assert enqueues-this-message: arg1 == receiveCtx
+//@   at call 2 of invoke Enqueue ghost dr_enqueued = true
+//@   at call 2 of invoke Enqueue ghost dr_enq_err = result
+//@   at call 2 of (*PID).handleReceivedError assert a-refused-message-is-reported: dr_enq_err != nil && arg1 == receiveCtx && arg2 == dr_enq_err
+//@   at call 1 of (*dispatchState).TrySchedule assert wake-up-attempt-follows-every-accepted-message: dr_enq_err == nil
+//@   at call 1 of (*dispatchState).TrySchedule ghost dr_scheduled = result
+//@   at call 1 of (*dispatchState).TrySchedule ghost dr_attempted = true
+//@   ensures every-accepted-message-gets-a-wake-up-attempt: dr_enqueued && dr_enq_err == nil ==> dr_attempted
+//@   at call 1 of (*dispatcher).schedule assert pushes-only-after-winning-the-transition: dr_scheduled
+//@ structural mustcall (*PID).doReceive: (*dispatchState).TrySchedule, (*dispatcher).schedule
+
+// (the worker side - every dequeued message is dispatched exactly once - is part
+// of runTurn's contract in zz_verif_contracts_c01.go, which also serves C02)
